@@ -10,12 +10,12 @@ BASE = {
     "add": 3.0, "scale": 1.5, "unary": 1.5, "apply": 2.5,
     "canonicalise": 1.2, "ensure": 1.2, "move_qnidx": 1.5, "compress_lossless": 1.0, "normalize": 0.5,
     "truncate": 0.8, "observe": 2.0, "drop": 0.3, "alias_mutate": 0.0, "spill": 0.0, "swap": 0.0, "observe2": 0.3,
-    "dump_load": 0.0, "spill_session": 0.0, "spill_gc": 0.0, "regauge": 0.8, "contract": 0.6,
+    "dump_load": 0.0, "spill_session": 0.0, "spill_gc": 0.0, "regauge": 0.8, "contract": 0.6, "mpo_shared": 0.5,
 }
 
 TWEAKS = {
     "C07": {"observe2": 9.0, "observe": 2.0, "truncate": 0.3, "add": 2.0, "apply": 2.0, "mpdm_from_mps": 1.2, "swap": 0.5, "unary": 1.0},
-    "C01": {"mpo": 8.0, "swap": 8.0, "unary": 1.5, "mps_random": 0.5, "add": 0.5, "apply": 1.0, "observe": 1.0, "truncate": 0.0, "canonicalise": 0.3,
+    "C01": {"mpo_shared": 4.0, "mpo": 8.0, "swap": 8.0, "unary": 1.5, "mps_random": 0.5, "add": 0.5, "apply": 1.0, "observe": 1.0, "truncate": 0.0, "canonicalise": 0.3,
             "ensure": 0.3, "compress_lossless": 0.5, "move_qnidx": 0.3, "scale": 0.3, "normalize": 0.0, "mps_product": 0.2, "mpdm_from_mps": 0.0},
     "C03": {"add": 4.5, "apply": 3.5, "move_qnidx": 2.5, "observe": 3.0, "truncate": 0.2},
     "C04": {"canonicalise": 4.0, "ensure": 3.0, "compress_lossless": 4.0, "move_qnidx": 2.0, "truncate": 0.2, "observe": 0.5},
@@ -53,6 +53,14 @@ class ChainProfile(session.Profile):
             h["knobs"]["long"] = True
             for k in h["weights"]:
                 h["weights"][k] = {"mpo": 3.0, "swap": 20.0, "unary": 0.5}.get(k, 0.0)
+        if self.pid == "C01" and rnd.random() < 0.015:
+            # rare stress configuration: one production-size operator (thousands of terms, hundreds of distinct local operator strings)
+            h2 = chain.gen_header(rnd, nmodels=(1, 1), flavours=["spin"], maxdim=64, nmax=6, nmin=6)
+            for st in h2["models"][0]["sites"]:
+                if st["type"] != "spin":
+                    st.clear(); st.update({"type": "spin", "dof": "s%d" % rnd.randrange(10 ** 6)})
+            h["models"] = h2["models"][:1]
+            h["knobs"]["stress_terms"] = rnd.choice([900, 1400])
         if self.pid in ("C01", "C03", "C07") and rnd.random() < 0.35:
             h["knobs"]["units_prob"] = 0.6      # swarm knob: operators written in "other units" (overall factor 1e-6 .. 1e9)
         return h
@@ -61,12 +69,20 @@ class ChainProfile(session.Profile):
         return rnd.randint(10, 40)
 
     def nsteps_for(self, header, rnd, tier):
+        if header.get("knobs", {}).get("stress_terms"):
+            return rnd.randint(2, 4)
         return rnd.randint(30, 60) if header.get("knobs", {}).get("long") else self.nsteps(rnd, tier)
 
     def weights(self, header):
         return header["weights"]
 
     def propose(self, world, rnd, weights):
+        if world.knobs.get("stress_terms") and not world.handles("mpo"):
+            from simlab.gen import models as gm
+            spec = world.model_specs[0]
+            terms = gm.gen_stress_terms(rnd, spec["sites"], world.knobs["stress_terms"])
+            return {"op": "mpo", "mid": 0, "terms": terms, "algo": rnd.choice(["Hopcroft-Karp", "Hopcroft-Karp", "Hungarian", "qr"]), "offset": 0.0, "out": world.new_handle(),
+                    "rngseed": rnd.randrange(2 ** 31)}
         # seed the population first
         if not world.handles("mps"):
             s = chain.PROPOSERS["mps_random"](world, rnd)
